@@ -24,12 +24,21 @@
 #include "Variable_defs.hh"
 #include "Poly_Con_Relation_defs.hh"
 #include "Poly_Gen_Relation_defs.hh"
+#include "Variables_Set_defs.hh"
 #include "Init_defs.hh"
 #undef private
 #undef protected
 
 using namespace Parma_Polyhedra_Library;
 static Init ppl_init;
+
+// partial function on space dimensions for map_space_dimensions: m[i] = new index of dimension i, or -1
+struct PFunc {
+  std::vector<long> m;
+  bool has_empty_codomain() const { for (size_t i = 0; i < m.size(); ++i) if (m[i] >= 0) return false; return true; }
+  dimension_type max_in_codomain() const { long b = 0; for (size_t i = 0; i < m.size(); ++i) if (m[i] > b) b = m[i]; return (dimension_type) b; }
+  bool maps(dimension_type i, dimension_type& j) const { if (i >= m.size() || m[i] < 0) return false; j = (dimension_type) m[i]; return true; }
+};
 
 static const int POOL = 4;
 static Grid* pool[POOL];
@@ -235,6 +244,22 @@ static std::string run_line(const std::string& line) {
   if (op == "embed") { unsigned m; in >> m; x.add_space_dimensions_and_embed(m); return "ok"; }
   if (op == "project") { unsigned m; in >> m; x.add_space_dimensions_and_project(m); return "ok"; }
   if (op == "rmhigher") { unsigned m; in >> m; x.remove_higher_space_dimensions(m); return "ok"; }
+  if (op == "mapdims") {
+    PFunc pf; pf.m.resize(n);
+    for (unsigned i = 0; i < n; ++i) in >> pf.m[i];
+    x.map_space_dimensions(pf); return "ok";
+  }
+  if (op == "rmdims") {
+    unsigned k; in >> k; Variables_Set vs;
+    for (unsigned i = 0; i < k; ++i) { unsigned v; in >> v; vs.insert(Variable(v)); }
+    x.remove_space_dimensions(vs); return "ok";
+  }
+  if (op == "expand") { unsigned var, m; in >> var >> m; x.expand_space_dimension(Variable(var), m); return "ok"; }
+  if (op == "fold") {
+    unsigned dest, k; in >> dest >> k; Variables_Set vs;
+    for (unsigned i = 0; i < k; ++i) { unsigned v; in >> v; vs.insert(Variable(v)); }
+    x.fold_space_dimensions(vs, Variable(dest)); return "ok";
+  }
   if (op == "concat") { int y; in >> y; x.concatenate_assign(*pool[y]); return "ok"; }
   if (op == "closure") { x.topological_closure_assign(); return "ok"; }
   if (op == "obs") {
